@@ -8,7 +8,8 @@ import wpt
 from lib import hx
 
 COMPS = ["protocol", "username", "password", "hostname", "ipv6hostname", "port", "portproto", "pathname", "opaquepathname", "search", "hash",
-         "escpattern", "escregexp", "procbase", "isipv6", "isabs"]
+         "escpattern", "escregexp", "procbase", "isipv6", "isabs",
+         "p.protocol", "p.username", "p.password", "p.hostname", "p.port", "p.pathname", "p.search", "p.hash"]
 HELPERS = ("escpattern", "escregexp", "procbase", "isipv6", "isabs")
 PROTOS = ["", "http", "https", "ws", "wss", "ftp", "file", "http:", "https:", "ftp:", "foo", "foo:", ":", "HTTP", "httpx", "htt", "wss:", "ws:", "fake"]
 SIMPLE_PATH = list("abcxyzABCXYZ0189/_~-")
@@ -18,6 +19,16 @@ TN = ["\t", "\n", "\r"]
 
 def gen_value(rng, comp):
     r = rng.random()
+    if comp.startswith("p."):
+        base = comp[2:]
+        v = gen_value(rng, base if base != "pathname" or rng.random() < 0.7 else "opaquepathname")
+        if base == "protocol" and r < 0.4:
+            v += rng.choice([":", "::", ":"])
+        if base == "search" and r < 0.5:
+            v = rng.choice(["?", "??", "?"]) + v
+        if base == "hash" and r < 0.5:
+            v = rng.choice(["#", "#?", "#"]) + v          # never "##": process_hash asserts (development builds) that one '#' at most leads
+        return v
     if comp in HELPERS:
         # ASCII only (the escapers assert it); pattern / regexp syntax, brackets, slashes at the first two positions
         return patlib._rand_text(rng, list("ab01+*?:{}()\\[]/.^$|-_~ "), 0, 6) if r < 0.7 else \
@@ -63,9 +74,14 @@ def explore(run, binp, n):
         c = rng.choice(COMPS)
         v = gen_value(rng, c)
         p = rng.choice(PROTOS) if c == "portproto" else (rng.choice(["p", "u"]) if c in ("procbase", "isabs") else "")
+        if c in ("p.protocol", "p.username", "p.password", "p.hostname", "p.search", "p.hash"):
+            p = rng.choice(["p", "u", "u"])
         lim = ""
-        if c in ("pathname", "hostname", "protocol") and rng.random() < 0.15:
-            lim = " L=" + str(max(0, len(v.encode("utf-8", "surrogateescape")) + rng.choice([0, 5, 10, 13, 14, 15, 16, 17, 18, 19, 20, 22, 30])))
+        if c in ("p.port", "p.pathname"):
+            p = rng.choice([x for x in PROTOS if not x.endswith(":")])
+            lim = rng.choice([" T=p", " T=u", " T=u"])
+        if c in ("pathname", "hostname", "protocol", "p.pathname", "p.hostname", "p.protocol") and rng.random() < 0.15:
+            lim += " L=" + str(max(0, len(v.encode("utf-8", "surrogateescape")) + rng.choice([0, 5, 10, 13, 14, 15, 16, 17, 18, 19, 20, 22, 30])))
         cases.add((c, v, p, lim))
     cases = sorted(cases)
     rng.shuffle(cases)
